@@ -1,9 +1,12 @@
 from tools.driver import Unit
-UNITS = [
-  Unit("floor1_inverse2", ["C02", "C01", "C11"], "lib/floor1.c", enforce="floor1_inverse2", replace=["render_line"], loops="floor1_inv.loops",
-       harness="h_floor1_inverse2.c", entry="h_floor1_inverse2", unwindset=["h_floor1_inverse2.0:66", "h_floor1_inverse2.1:66", "h_floor1_inverse2.2:66"],
-       reach=4, timeout=900,
-       assumed=["render_line by contract: its PRECONDITIONS (positive length, ends inside the dB table, output vector of half the current block) are proved at the call site; its table index during the walk (Bresenham stays between the end points) is assumed - nonlinear, undecided on every installed solver",
-                "look as floor1_look builds it from posts that are pairwise distinct (harness-built, all 65 slots; posts 2..65 symbolic): forward_index a strictly increasing ordering; memo values 16 bit as floor1_inverse1 leaves them (not under contract)"],
-       note="floor 1 curve synthesis: the curve is rendered into half the CURRENT block (not the floor's own X range), every line has positive length, both ends clamped into the 256-entry dB table, unused posts skipped, the tail fill starts at the last rendered post and stays inside the vector; an unused floor zero-fills exactly the vector; nothing else is written"),
-]
+NOTE = ("floor 1 curve synthesis: the curve is rendered into half the CURRENT block (not the floor's own X range), every line has positive length, both ends clamped into the 256-entry dB table, "
+        "unused posts skipped, the tail fill starts at the last rendered post and stays inside the vector; an unused floor zero-fills exactly the vector; nothing else is written")
+ASSUMED = ["render_line by contract: its PRECONDITIONS (positive length, ends inside the dB table, output vector of half the current block) are proved at the call site; its table index during the walk (Bresenham stays between the end points) is assumed - nonlinear, undecided on every installed solver",
+           "look as floor1_look builds it from posts that are pairwise distinct (harness-built over all 65 slots): forward_index a strictly increasing ordering; memo values 16 bit as floor1_inverse1 leaves them (not under contract)"]
+def f1(name, posts, tier, timeout):
+    return Unit(name, ["C02", "C01", "C11"], "lib/floor1.c", enforce="floor1_inverse2", replace=["render_line"], loops="floor1_inv.loops",
+       harness="h_floor1_inverse2.c", entry="h_floor1_inverse2", defines=(["H_MAXPOSTS=%d" % posts] if posts else []),
+       unwindset=["h_floor1_inverse2.0:66", "h_floor1_inverse2.1:66", "h_floor1_inverse2.2:66"], reach=4, timeout=timeout, tier=tier,
+       kind="B" if posts else "P", bound=("<= %d posts (the function's loops are closed by loop contracts; solving time grows with the number of sorted posts the harness states: 9 s for 8, 63 s for 20, > 15 min for the format's 65); block sizes, multiplier, post positions, decoded values, unused flags symbolic" % posts) if posts else "",
+       assumed=ASSUMED, note=NOTE)
+UNITS = [f1("floor1_inverse2", 16, "quick", 600), f1("floor1_inverse2_full", 0, "thorough", 3600)]
